@@ -5,6 +5,8 @@ from facts import op_int, op_local, op_place
 import loaderlib as L
 import callgraph
 
+THOROUGH_CFGS = ('min_none', 'min_rten', 'min_onnx')   # reduced-feature builds of the rten crate (thorough tier)
+
 EXPLANATION = (
     "Scope-complete rules over the byte-level loaders (rten::model::{rten_loader, onnx_loader, external_data, file_type, "
     "metadata}, Model/ModelOptions::load*, rten::constant_storage, rten_model_file::header) plus the rules of the shared "
@@ -56,6 +58,7 @@ def sub_checks(ctx):
     for mod, name in ((C38, 'C38'), (C21, 'C21'), (C03, 'C03')):
         sub = type(ctx)(ctx.prop, ctx.tier, ctx.fact_dirs, load_tables(name), ctx.repo_hash)
         sub._fbs = ctx._fbs
+        sub.default_cfg = getattr(ctx, 'default_cfg', 'ws')
         mod.run(sub)
         for i in sub.instances:
             if name == 'C03' and not i['rule'].startswith(('C03.worklist', 'C03.cycle-guard', 'C03.progress')):
